@@ -7,6 +7,7 @@ import SFV.Proofs.GaussRegister
 import SFV.Proofs.BosonicState
 import SFV.Proofs.MsGate
 import SFV.Proofs.FockPositive
+import SFV.Proofs.PhysicalProgram
 
 /-!
 # C07 — every simulated state is physical and gates conserve what they must
@@ -56,6 +57,17 @@ theorem uncertainty_gate {n : Type} [Fintype n] [DecidableEq n] (V Ω S : Matrix
 theorem uncertainty_channel' {n : Type} [Fintype n] [DecidableEq n] (V Ω X Y : Matrix n n ℝ)
     (hY : (cplx Y + Complex.I • cplx (Ω - X * Ω * Xᵀ)).PosSemidef) (h : Uncertainty V Ω) :
     Uncertainty (X * V * Xᵀ + Y) Ω := uncertainty_channel V Ω X Y hY h
+
+/-- **the uncertainty relation holds after every program**: any list of whole-register channel steps `V ↦ X V Xᵀ + Y`, each
+satisfying the complete-positivity condition (gates: `Y = 0`, `X Ω Xᵀ = Ω`, by `gate_step_cp`), takes a physical covariance matrix
+to a physical one — induction over the program; no bound on its length or on the register size -/
+theorem uncertainty_program {n : Type} [Fintype n] [DecidableEq n] (Ω : Matrix n n ℝ)
+    (prog : List (Matrix n n ℝ × Matrix n n ℝ)) (hcp : ∀ s ∈ prog, ChanCP Ω s) (V : Matrix n n ℝ) (h : Uncertainty V Ω) :
+    Uncertainty (prog.foldl chanStep V) Ω :=
+  SFV.Physical.uncertainty_program Ω prog hcp V h
+
+theorem gate_step_cp {n : Type} [Fintype n] [DecidableEq n] (Ω S : Matrix n n ℝ) (hS : S * Ω * Sᵀ = Ω) : ChanCP Ω (S, 0) :=
+  gate_chanCP Ω S hS
 
 /-- **squeezers, rotations and beamsplitters preserve the uncertainty relation** — the chain closed:
 the simulator's entrywise update refines `linMap rows` (C01), `linMap rows` is the matrix congruence
